@@ -9,3 +9,5 @@ import (
 func printerFprint(w io.Writer, fset *token.FileSet, x interface{}) error {
 	return printer.Fprint(w, fset, x)
 }
+
+func tokenNewFileSet() *token.FileSet { return token.NewFileSet() }
